@@ -58,7 +58,8 @@ REQUIRED_COUNTERS = ['trials_checked', 'runs_reproduced',
                      'batch_shared_error_model', 'interrupted_runs',
                      'sampled_errors_support_checked',
                      'hash_seed_sessions_compared',
-                     'batch_run_calls_on_one_object']
+                     'batch_run_calls_on_one_object',
+                     'trial_records_reread_after_the_run']
 SHARD_TIMEOUT = {'quick': 900, 'thorough': 5400}
 
 DIRS = {'pureZ': (0.0, 0.0, 1.0), 'pureX': (1.0, 0.0, 0.0),
@@ -88,12 +89,17 @@ class Recorder:
         self.ds = ds
         self.orig = ds.run_once
         self.shots = []
+        self.originals = []
         rec = self
 
         def run_once(*a, **kw):
             r = rec.orig(*a, **kw)
             rec.shots.append({k: (np.array(v) if isinstance(v, np.ndarray)
                                   else v) for k, v in r.items()})
+            # the record itself (what a caller collecting trial records
+            # holds), for a second look after later trials have run
+            if len(rec.originals) < 600:
+                rec.originals.append((len(rec.shots) - 1, r))
             return r
         ds.run_once = run_once
 
@@ -194,7 +200,28 @@ def check_results(out, sim, shots, desc, mech):
             bad('p_se', f"p_se={g['p_se']} != sqrt(p(1-p)/(n+1))={se}")
 
 
+def ensure_user_decoder():
+    """A decoder a user might write: matching, with the correction pushed
+    to another representative of the same syndrome class (times logical
+    X_0).  Legal, deliberately bad, and it answers the trivial syndrome
+    non-trivially."""
+    from panqec import config
+    from panqec.decoders import MatchingDecoder
+    if 'PvOffsetMatchingDecoder' in config.DECODERS:
+        return
+
+    class PvOffsetMatchingDecoder(MatchingDecoder):
+        allowed_codes = None
+
+        def decode(self, syndrome, **kwargs):
+            c = np.asarray(super().decode(syndrome, **kwargs))
+            return (c + np.asarray(self.code.logicals_x[0],
+                                   dtype=c.dtype)) % 2
+    config.register_decoder(PvOffsetMatchingDecoder)
+
+
 def make_cell(cell, seed):
+    ensure_user_decoder()
     from panqec.error_models import PauliErrorModel
     from panqec.simulation import DirectSimulation
     code = fam.build(cell['cls'], tuple(cell['size']), cell.get('code_def'),
@@ -279,6 +306,23 @@ def run_cell(task, out):
                 bad += 4
                 break
         check_results(out, sim, shotsA, desc, mech)
+        for i, orig in rec.originals:
+            if i >= len(shotsA):
+                break
+            out.count('trial_records_reread_after_the_run')
+            for k in ('error', 'syndrome', 'correction', 'effective_error'):
+                if not np.array_equal(np.asarray(orig[k]),
+                                      np.asarray(shotsA[i][k])):
+                    out.violation(
+                        f'{mech}/trial-record-changed-by-later-trials',
+                        f'the {k} of the record returned for trial {i} no '
+                        'longer reads as it did when the trial returned',
+                        desc)
+                    break
+            else:
+                continue
+            break
+        rec.originals = []
         out.case(dict(desc, k='trials', seed=seed), nontrivial=nontriv > 0,
                  n=len(shotsA), distinct=nontriv,
                  sample=dict(desc, trials=len(shotsA),
@@ -433,6 +477,25 @@ def plan(tier, seed):
                                     'size': list(size), 'noise': noise,
                                     'noise_def': None, 'rate': rate,
                                     'dec_rate': 0.1})
+    # decoders set up at rates where a flip marginal exceeds 1/2 (matching
+    # then answers the trivial syndrome with a logical operator on lattices
+    # with an odd side): the frequency must still estimate what THIS decoder
+    # does
+    for cls, size in (('RotatedPlanar2DCode', (3, 3)), ('Planar2DCode', (2, 2)),
+                      ('Toric2DCode', (2, 2)), ('RotatedPlanar2DCode', (2, 3)),
+                      ('RotatedPlanar2DCode', (3, 1)),
+                      ('RotatedPlanar2DCode', (1, 3)),
+                      ('Planar2DCode', (1, 3))):
+        for noise, rate in (('depol', 0.9), ('pureX', 0.7), ('skew', 0.95)):
+            special.append({'decoder': 'MatchingDecoder', 'cls': cls,
+                            'size': list(size), 'noise': noise,
+                            'noise_def': None, 'rate': rate})
+    # a user-written decoder that answers the trivial syndrome non-trivially
+    for cls, size in (('Planar2DCode', (2, 2)), ('RotatedPlanar2DCode', (3, 3))):
+        for rate in (0.02, 0.2):
+            special.append({'decoder': 'PvOffsetMatchingDecoder', 'cls': cls,
+                            'size': list(size), 'noise': 'depol',
+                            'noise_def': None, 'rate': rate})
     # channels with one component exactly zero but two letters per qubit
     for cls, size in (('Planar2DCode', (2, 2)), ('RotatedPlanar2DCode', (3, 3))):
         for noise in ('xz', 'x8z2', 'xy'):
